@@ -28,6 +28,10 @@ pub struct SamParams {
     /// no placed record at all
     #[serde(default)]
     pub all_unmapped: bool,
+    /// one unmapped long read (70-200 kb, one base and one quality value throughout: a poly-A
+    /// nanopore artefact): a text line / record spanning several BGZF blocks of near-zero entropy
+    #[serde(default)]
+    pub long_read: bool,
 }
 
 #[derive(Clone, Debug)]
@@ -79,6 +83,7 @@ pub fn gen_params(rng: &mut Rng, size_class: u8) -> SamParams {
         cram_safe: false,
         all_mapped: false,
         all_unmapped: false,
+        long_read: size_class == 3 && rng.chance(1, 5),
     }
 }
 
@@ -457,6 +462,13 @@ pub fn generate(p: &SamParams) -> SamModel {
             line.push_str(&format!("\tRG:Z:rg{}", rng.usize_below(n_rg)));
         }
         recs.last_mut().unwrap().2 = line;
+    }
+    if p.long_read && !p.cram_safe {
+        let n = 70_000 + rng.usize_below(130_000);
+        let at = rng.usize_below(recs.len() + 1);
+        let (b, q) = (*rng.pick(b"ATN") as char, *rng.pick(b"I#5") as char);
+        let line = format!("longread\t4\t*\t0\t0\t*\t*\t0\t0\t{}\t{}", b.to_string().repeat(n), q.to_string().repeat(n));
+        recs.insert(at, (usize::MAX, 0, line));
     }
     if p.sorted {
         // coordinate order: by (ref index, pos); unmapped (usize::MAX) last; stable
